@@ -602,13 +602,28 @@ func ruleLimitTable(c *core.Ctx) {
 						}
 					}
 				}
+				// comparisons with the limit, wherever they are evaluated: in a condition, or in
+				// the definition of a boolean local that names the condition (isFull := len(d) >= max)
+				var exprs []ast.Expr
 				for _, bv := range g.BranchVertices() {
-					if bv.Cond.Expr == nil {
-						continue
+					if bv.Cond.Expr != nil {
+						exprs = append(exprs, bv.Cond.Expr)
 					}
+				}
+				for _, v := range g.Vs {
+					switch st := v.AST.(type) {
+					case *ast.AssignStmt:
+						exprs = append(exprs, st.Rhs...)
+					case *ast.ValueSpec:
+						exprs = append(exprs, st.Values...)
+					case *ast.ReturnStmt:
+						exprs = append(exprs, st.Results...)
+					}
+				}
+				for _, condExpr := range exprs {
 					mentionsAny := false
 					for h := range holds {
-						if core.Mentions(info, bv.Cond.Expr, h) {
+						if core.Mentions(g.Info, condExpr, h) {
 							mentionsAny = true
 						}
 					}
@@ -616,7 +631,7 @@ func ruleLimitTable(c *core.Ctx) {
 						continue
 					}
 					// find the comparison with the limit
-					ast.Inspect(bv.Cond.Expr, func(n ast.Node) bool {
+					ast.Inspect(condExpr, func(n ast.Node) bool {
 						be, ok := n.(*ast.BinaryExpr)
 						if !ok {
 							return true
